@@ -1,15 +1,16 @@
 (** C14 — Reproducibility: same seed, same results; runs can be split and parallelised.  Statements only.
-    PARTIAL.  Proved on the event-system model: the evolution depends on the random generator only through the
-    tie-break weights drawn (same weights, same evolution: [C14_same_weights]); any order-preserving renumbering of the
-    asset ids commutes with every queue operation ([C14_renumber_*]), so the numbering of assets cannot influence the
-    order of events; the marker event of Environment.run changes only the clock and the terminated flag
-    ([C14_run_marker_*]).  The floor model is a pure function of scenario and weights, and the lock-step shows the
-    implementation computes that function at whatever value the process-wide id counter has.
-    Not a theorem: the end-to-end equality "run a then b = run a+b" (it needs a simulation argument over renumbered
-    event ids; the marker lemmas are its ingredients) and anything about worker processes: both are decided by the
-    reproducibility monitor on the implementation (same scenario again / seeded twice / split / multi-process). *)
+    Proved on the event-system model, for every action behaviour: the evolution depends on the random generator only through
+    the tie-break weights drawn ([C14_same_weights]); it does not depend on how events are numbered ([C14_numbering_independent]);
+    any order-preserving renumbering of the asset ids commutes with every queue operation ([C14_renumber_*]); the marker event of
+    Environment.run is transparent ([C14_run_marker_*]); and, from these, **running for a and then for b ends in the same world,
+    clock, recorded data and pending/paused events as running once for a+b, when the second run hands the remaining events the
+    weights the single run gives them** ([C14_run_split]).  The floor model is a pure function of scenario and weights, and the
+    lock-step shows the implementation computes that function at whatever value the process-wide id counter has.
+    PARTIAL only for the clause about worker processes (a Coq model cannot exhibit them): decided by the reproducibility monitor
+    on the implementation (rerun / seeded twice / split / multi-process). *)
 From Coq Require Import ZArith List Bool Lia.
-From SimVerif Require Import Model.Base Model.Env Proofs.EnvRepro.
+From Coq Require Import Sorting.Sorted.
+From SimVerif Require Import Model.Base Model.Env Proofs.EnvInv Proofs.EnvRepro Proofs.EnvSplit.
 Import ListNotations.
 Open Scope Z_scope.
 
@@ -55,6 +56,34 @@ Section C14.
   End Renumber.
 End C14.
 
+(** the evolution does not depend on the numbering of events: two environments that agree up to event numbers, driven by weight
+    sources that agree on the numbers still to be handed out, make the same step and stay in agreement *)
+Theorem C14_numbering_independent : forall (A W : Type) (exec : A -> W -> Z -> W * list (cmd A)) (wfail : W -> bool) (ws ws' : nat -> Z) w (en en' : env A),
+  eqv A (queue en) (queue en') -> eqv A (paused en) (paused en') -> terminated en' = terminated en -> datalog en' = datalog en ->
+  wsync A ws ws' en en' ->
+  match step ws exec wfail (w, en), step ws' exec wfail (w, en') with
+  | None, None => True
+  | Some (Ok (w1, e1)), Some (Ok (w1', e1')) => w1' = w1 /\ env_eqv A e1 e1' /\ wsync A ws ws' e1 e1'
+  | Some (Err (w1, e1)), Some (Err (w1', e1')) => w1' = w1 /\ env_eqv A e1 e1' /\ wsync A ws ws' e1 e1'
+  | _, _ => False
+  end.
+Proof. exact step_eqv. Qed.
+
+(** RUN SPLIT.  [clean]: the pending and paused events are ordinary (priority above the terminate priority) and the queue is
+    sorted (C01); [exec_ok]: actions schedule only above the terminate priority and never pause/cancel the environment's own id -1. *)
+Theorem C14_run_split : forall (A W : Type) (exec : A -> W -> Z -> W * list (cmd A)) (wfail : W -> bool),
+  (forall a w t, Forall (cmd_ok A) (snd (exec a w t))) ->
+  forall ws ws2 fuel a b w (en : env A) w2 en2,
+  0 <= a -> 0 <= b -> clean A en ->
+  run ws exec wfail fuel (a + b) (w, en) = Some (Ok (w2, en2)) ->
+  exists w1 en1,
+    run ws exec wfail (S fuel) a (w, en) = Some (Ok (w1, en1)) /\ now en1 = now en + a /\
+    ((forall i, ws2 (S (next_eid en1) + i)%nat = ws (next_eid en1 + i)%nat) ->
+     exists en2', run ws2 exec wfail (S fuel) b (w1, en1) = Some (Ok (w2, en2')) /\
+                  eqv A (queue en2) (queue en2') /\ eqv A (paused en2) (paused en2') /\ datalog en2' = datalog en2 /\
+                  now en2' = now en2 /\ now en2 = now en + (a + b) /\ terminated en2' = true /\ terminated en2 = true).
+Proof. exact run_split. Qed.
+
 (** simulate_multiple_times: one system per index, in index order (the list comprehension / the futures list of system.py) *)
 Theorem C14_results_in_index_order : forall (X : Type) (sim : nat -> X) n, map sim (seq 0 n) = map sim (seq 0 n) /\ length (map sim (seq 0 n)) = n /\
   forall i, (i < n)%nat -> nth_error (map sim (seq 0 n)) i = Some (sim i).
@@ -74,6 +103,8 @@ Print Assumptions C14_renumber_pause.
 Print Assumptions C14_renumber_unpause.
 Print Assumptions C14_renumber_cancel.
 Print Assumptions C14_results_in_index_order.
+Print Assumptions C14_numbering_independent.
+Print Assumptions C14_run_split.
 
 Example C14_nonvacuous :
   let rho := fun a => if a <? 1 then a else a + 100 in
@@ -84,4 +115,21 @@ Example C14_nonvacuous :
 Proof.
   cbv zeta. split; [|repeat split].
   intros a b L. destruct (Z.ltb_spec a 1); destruct (Z.ltb_spec b 1); lia.
+Qed.
+
+(** Non-vacuity of the run-split theorem: a self-rescheduling action (every 8 ticks, priority 32), one pending event at time 0:
+    the environment is clean, the action obeys [cmd_ok], running once for 16 + 24 succeeds. *)
+Definition c14_exec (a : unit) (w : Z) (t : Z) : Z * list (cmd unit) := (w + 1, [CSched (t + 8) 32 1 tt]).
+Definition c14_env : env unit :=
+  mkEnv 0 [mkEvent 0%nat 0 32 5 1 (Some tt) None false] [] 1%nat true [] [].
+Example C14_split_nonvacuous :
+  (forall a w t, Forall (cmd_ok unit) (snd (c14_exec a w t))) /\ clean unit c14_env /\
+  exists s, run (fun n => Z.of_nat n) c14_exec (fun _ => false) 100 (16 + 24) (0, c14_env) = Some (Ok s) /\ fst s = 6.
+Proof.
+  split; [intros; repeat constructor; cbn; unfold P_TERMINATE; lia|]. split.
+  - split; cbn.
+    + repeat constructor.
+    + intros e [<-|[]]. split; [cbn; unfold P_TERMINATE; lia|discriminate].
+    + intros e [].
+  - eexists. split; [vm_compute; reflexivity|reflexivity].
 Qed.
